@@ -90,6 +90,8 @@ CATALOGUE = [
     # a local label defined twice inside one scope (the second definition is the culprit)
     ("duplicate-local-label", ["{I}7$: nop", "{I}«7$: clr r0"], "duplicate-symbol", "error", ("S",)),
     ("duplicate-numeric-local-label", ["{I}77: nop", "{I}br 77", "{I}«77:\tclr r0"], "duplicate-symbol", "error", ("S",)),
+    # a backward '. =' whose target is only known later (the check runs after the rest of the file has been compiled)
+    ("backward-skip-late-target", ["bklab7:", "{I}«. = »bklab7 - bkoff7", "{I}nop", "bkoff7 = 4"], "value-out-of-bounds", "error", ("S", "T")),
     ("dangling-comma-insn", ["{I}«mov r0   », "], "invalid-operand", "critical", ("T",)),
     ("dangling-comma-insn-next-line", ["{I}«mov r0 ; why", "\t », "], "invalid-operand", "critical", ("T",)),
     ("dangling-operator-comma", ["{I}«.word 5 *   »,2"], "invalid-expression", "critical", ("T",)),
